@@ -831,6 +831,9 @@ class Scan:
         fw = self.facts(w)
         if isinstance(e, ast.Name) and depth < 4 and e.id not in fw.params:
             bs = fw.bind.get(e.id, [])
+            if len(bs) == 1 and (bs[0][0] == "for" or (bs[0][0] == "val" and isinstance(bs[0][1], ast.Call) and isinstance(bs[0][1].func, ast.Attribute) and bs[0][1].func.attr in POPPERS)):
+                # an element of the work list / of a directory listing: a path when the generator asks it path questions
+                return any(isinstance(n, ast.Attribute) and isinstance(n.value, ast.Name) and n.value.id == e.id and n.attr in ("is_dir", "is_file", "iterdir", "resolve", "suffix", "name") for n in own_nodes(w.node))
             return len(bs) == 1 and bs[0][0] == "val" and self._plain_path(w, bs[0][1], depth + 1)
         if rcs.join_parts(self, w, e) is not None:
             return True
